@@ -85,7 +85,9 @@ func (e *Exec) runUpgrade(a *Action, obs *StepObs, discs *[]Disc) {
 			panic(err)
 		}
 	}()
+	e.midUpgrade = true
 	_, d, halted = e.endBlock()
+	e.midUpgrade = false
 	*discs = append(*discs, d...)
 	if halted {
 		obs.Halted = true
